@@ -365,7 +365,7 @@ func TestVerifC23(t *testing.T) {
 	}
 	r.Note("api-methods", strings.Join(methods, ","))
 
-	rounds := r.N(2, 96)
+	rounds := r.N(2, 80)
 	r.Cases("matrix", rounds, func(i int, id string, rng *vk.Rand) {
 		for _, name := range methods {
 			e, ok := c23Table[name]
